@@ -8,6 +8,7 @@
 from __future__ import annotations
 
 import ast
+import re
 
 from .. import flow
 from ..astutil import (
@@ -846,6 +847,69 @@ def r1_10(ctx):
         ctx.ok("R1.10", where(fi), "the session's queue is sent on every path from the admission to Mailbox.search()")
 
 
+def r1_11(ctx):
+    """When a resync has found new messages, every session that has the mailbox selected is told the new message count:
+    the EXISTS line is pushed to it at once or - if other notifications are still queued for it - queued behind them.  In
+    check_new_msgs_and_flags the loop over the mailbox's clients delivers the list that holds the EXISTS line on every path
+    through its body (an arm that neither pushes nor queues leaves that session with a view that is one message short for
+    good: nothing repeats an EXISTS)."""
+    p = ctx.p
+    fi = p.func("mbox.Mailbox.check_new_msgs_and_flags")
+    ctx.analysed(fi)
+    g = ctx.cfg(fi)
+    par = parmap(fi)
+    loops = [n for n in body_walk(fi.node) if isinstance(n, (ast.For, ast.AsyncFor)) and "self.clients" in norm(n.iter)]
+    found = 0
+    for lp in loops:
+        # the list this loop hands out
+        names = set()
+        for c in calls_in(lp):
+            if call_name(c) == "extend" and c.args and isinstance(c.args[0], ast.Name) and "pending_notifications" in norm(call_recv(c)):
+                names.add(c.args[0].id)
+            if call_name(c) == "push":
+                for a in c.args:
+                    if isinstance(a, ast.Starred) and isinstance(a.value, ast.Name):
+                        names.add(a.value.id)
+        for nm in sorted(names):
+            # the definition in force at the loop: the statements before the loop in the same block, latest first
+            blk = par[lp]
+            lst = next((getattr(blk, f) for f in ("body", "orelse", "finalbody") if isinstance(getattr(blk, f, None), list) and lp in getattr(blk, f)), None)
+            if lst is None:
+                continue
+            text = []
+            for s_ in reversed(lst[: lst.index(lp)]):
+                t = norm(s_, 400)
+                if re.match(rf"{nm}\b", t) or re.match(rf"{nm}\.(append|extend)\(", t):
+                    text.append(t)
+                    if isinstance(s_, ast.Assign) and any(isinstance(tg, ast.Name) and tg.id == nm for tg in s_.targets):
+                        break
+            if not any("EXISTS" in t for t in text):
+                continue
+            found += 1
+            deliver = {
+                nd.id for nd in g.nodes
+                if nd.ast is not None and nd.kind in ("stmt", "with_enter") and any(
+                    (call_name(c) == "extend" and c.args and norm(c.args[0]) == nm and "pending_notifications" in norm(call_recv(c)))
+                    or (call_name(c) == "push" and any(isinstance(a, ast.Starred) and norm(a.value) == nm for a in c.args))
+                    for c in calls_in(nd.ast)
+                )
+            }
+            heads = [nd.id for nd in g.nodes if nd.kind == "iter" and nd.stmt is lp]
+            ctx.require(heads and deliver, "check_new_msgs_and_flags: EXISTS fan-out loop not found in the CFG")
+            first = [e.dst for e in g.out[heads[0]] if e.label == "true"]
+            w = None
+            for f0 in first:
+                if f0 in deliver:
+                    continue
+                w = w or flow.escapes_without(g, f0, lambda n: n in deliver, [heads[0]])
+            ctx.paths_explored += 1
+            if w:
+                ctx.bad("R1.11", fi.module, fi.qual, f"for c in clients: ... {nm}", f"one way through the loop that announces the new message count neither pushes nor queues `{nm}` (the list with the EXISTS line): that session is never told of the new messages - its view stays short, later sequence numbers the server sends it do not exist in it", lp.lineno, flow.fmt_path(g, w))
+            else:
+                ctx.ok("R1.11", where(fi), f"every selected session gets `{nm}` (EXISTS / RECENT): pushed, or queued behind what is pending for it")
+    ctx.floor("R1.11", found, 1, "EXISTS fan-out loops in check_new_msgs_and_flags")
+
+
 def run(ctx):
     ctx.do(r1_1)
     ctx.do(r1_2)
@@ -859,6 +923,7 @@ def run(ctx):
     ctx.do(r1_8)
     ctx.do(r1_9)
     ctx.do(r1_10)
+    ctx.do(r1_11)
     from . import c02
     ctx.do(c02.r2_6)
     # shared necessary conditions decided by sibling modules (reported under this property too)
